@@ -6,7 +6,7 @@ from tools.vlib import *
 import tools.vlib as _v
 
 PID = "C27"
-READY = False
+READY = True
 MANIFEST = {
     "level_text": "Lean 4 theorem C27.gate, for every daemon state, every parsed request whose command is STORE, FETCH (streamed or "
                   "with a daemon-side OUT path) or STOP, every configured token t and every behaviour of the node (manifest decoding, "
